@@ -1157,7 +1157,8 @@ static int parse_set(vnacal_load_state_t *vlsp, yaml_node_t *node)
 		vcp->vc_filename, node->start_mark.line + 1);
 	return -1;
     }
-    if (VNACAL_IS_T(type) ? rows > columns : rows < columns) {
+    if (rows < 1 || columns < 1 ||
+	    (VNACAL_IS_T(type) ? rows > columns : rows < columns)) {
 	_vnacal_error(vcp, VNAERR_SYNTAX,
 		"%s (line %ld) error: %d x %d dimensions are invalid for "
 		"type %s", vcp->vc_filename, node->start_mark.line + 1,
